@@ -20,7 +20,8 @@ import (
 )
 
 type channel struct {
-	mu                    sync.RWMutex
+	mu                    sync.RWMutex // protects trDatas, trIDs, the master* fields and maxNrBufSegs
+	mpdMu                 sync.Mutex   // protects mpd and startTime. Lock order: mpdMu before mu
 	name                  string
 	dir                   string
 	authUser              string
@@ -290,9 +291,16 @@ func (ch *channel) addChunkData(rsd recSegData) {
 }
 
 func (ch *channel) receivedSegData(rsd recSegData) {
+	// A segment is processed atomically with respect to the registration of new tracks (which changes the MPD)
+	ch.mpdMu.Lock()
+	defer ch.mpdMu.Unlock()
 	defer vhook.Event("recv.processed", ch.name, rsd.name, rsd.seqNr, rsd.chunkNr, rsd.isComplete)
 	log := slog.Default().With("chName", ch.name, "trName", rsd.name, "seqNr", rsd.seqNr)
-	if _, ok := ch.trDatas[rsd.name]; !ok {
+	ch.mu.RLock()
+	_, ok := ch.trDatas[rsd.name]
+	masterTrName := ch.masterTrName
+	ch.mu.RUnlock()
+	if !ok {
 		log.Error("received segData for unknown track")
 		return
 	}
@@ -326,22 +334,22 @@ func (ch *channel) receivedSegData(rsd recSegData) {
 			}
 		}
 
-		if ch.masterSegDuration == 0 && name == ch.masterTrName {
+		if ch.masterSegDuration == 0 && name == masterTrName {
 			// Evaluate at least two durations to see if the are the same
 			sdb := ch.segTimesGen.segDataBuffers[name]
 			if sdb.nrItems() < 2 {
 				return
 			}
 			for i := uint32(0); i < sdb.nrItems(); i++ {
-				if name == ch.masterTrName && ch.masterSegDuration == 0 {
+				if name == masterTrName && ch.masterSegDuration == 0 {
 					// Evaluate the first two durations to see if they are consecutive with same duration. If not, drop the oldest one.
 					if sdb.items[1].seqNr != sdb.items[0].seqNr+1 || sdb.items[1].dur != sdb.items[0].dur {
 						ch.segTimesGen.dropSeqNr(sdb.items[0].seqNr)
 						return
 					}
 					dur := sdb.items[1].dur
-					ch.masterSegDuration = dur
 					ch.mu.Lock()
+					ch.masterSegDuration = dur
 					rd := ch.trDatas[name]
 					ch.masterTimescale = rd.timeScaleOut
 					segTime0 := int64(sdb.items[0].dts)
@@ -359,6 +367,7 @@ func (ch *channel) receivedSegData(rsd recSegData) {
 						log.Info("Initial segment time", "seqNr0", seqNr0, "segTime0", segTime0,
 							"seqNrShift", ch.masterSeqNrShift, "timeShift", ch.masterTimeShift)
 					}
+					ch.maxNrBufSegs = ch.timeShiftBufferDepthS*ch.masterTimescale/ch.masterSegDuration + 2
 					ch.mu.Unlock()
 					ch.deriveAndSetBitrates()
 					ch.deriveAndSetFrameRates(log)
@@ -366,7 +375,6 @@ func (ch *channel) receivedSegData(rsd recSegData) {
 					if err != nil {
 						log.Error("failed to write MPD", "err", err)
 					}
-					ch.maxNrBufSegs = ch.timeShiftBufferDepthS*ch.masterTimescale/ch.masterSegDuration + 2
 					windowSize := ch.maxNrBufSegs - 1
 					log.Info("Starting channel", "windowSize", windowSize, "seqNrShift", ch.masterSeqNrShift,
 						"timeShift", ch.masterTimeShift)
@@ -490,7 +498,7 @@ func (ch *channel) updateAndWriteMPD(log *slog.Logger) error {
 // deriveAndSetBitrates estimates bitrates for variants without bitrate information.
 // Only count unshifted or shifted segments, not both.
 func (ch *channel) deriveAndSetBitrates() {
-	for name, trd := range ch.trDatas {
+	for name, trd := range ch.trDatasCopy() {
 		if trd.init.Moov.Trak.Mdia.Minf.Stbl.Stsd.GetBtrt() == nil {
 			// Estimate bitrate from the segments available
 			sdb := ch.segTimesGen.segDataBuffers[name]
@@ -528,7 +536,7 @@ func (ch *channel) deriveAndSetBitrates() {
 }
 
 func (ch *channel) deriveAndSetFrameRates(log *slog.Logger) {
-	for name, trd := range ch.trDatas {
+	for name, trd := range ch.trDatasCopy() {
 		sdb := ch.segTimesGen.segDataBuffers[name]
 		if trd.contentType != "video" {
 			continue
@@ -559,6 +567,25 @@ func (ch *channel) deriveAndSetFrameRates(log *slog.Logger) {
 			}
 		}
 	}
+}
+
+// trDatasCopy returns a copy of the track table that can be iterated without holding the lock.
+func (ch *channel) trDatasCopy() map[string]*trData {
+	ch.mu.RLock()
+	defer ch.mu.RUnlock()
+	c := make(map[string]*trData, len(ch.trDatas))
+	for name, trd := range ch.trDatas {
+		c[name] = trd
+	}
+	return c
+}
+
+// getTrData returns the track data for a track name.
+func (ch *channel) getTrData(name string) (*trData, bool) {
+	ch.mu.RLock()
+	defer ch.mu.RUnlock()
+	trd, ok := ch.trDatas[name]
+	return trd, ok
 }
 
 func (ch *channel) isShifted() bool {
